@@ -203,6 +203,7 @@ func runC19(c *Ctx) {
 
 	ruleConflictsSymm(c, p, "C19.symm")
 	ruleWrapperElem(c, p, "C19.wrapper-elem")
+	ruleNullableTotal(c, p, "C19.nullable-total")
 	ruleConfigParsed(c, p, "C19.config")
 	ruleSliceOrder(c, p, "C19.slices")
 	ruleAdopt(c, p, "C19.adopt")
@@ -1250,4 +1251,61 @@ func ruleWrapperElem(c *Ctx, p *core.Program, rule string) {
 		}
 	}
 	c.R.Floor(rule, cfg, n, 1)
+}
+
+// ---- C19.nullable-total: a column offered as Nullable() accepts the placeholder of a NULL row
+func ruleNullableTotal(c *Ctx, p *core.Program, rule string) {
+	c.R.Rule(rule, "ColNullable decodes its values column for every row, NULL rows included, and the server writes a placeholder (zero) there: a column type that offers a Nullable() wrapper (which ColAuto finds reflectively for `Nullable(T)`) has no decoder that rejects a value for not being in a table - DecodeColumn and the proto functions it calls contain no failing map lookup (`v, ok := table[x]; !ok -> error`). ColEnum's decoder is of that kind: giving it Nullable() makes `Nullable(Enum8('a'=1))` inferable and every block with a NULL row undecodable")
+	cfg := p.Cfg.Name
+	n := 0
+	for _, ct := range columnTypes(p) {
+		nm := methodOf(p, ct, "Nullable")
+		dec := methodOf(p, ct, "DecodeColumn")
+		if nm == nil || dec == nil || dec.Blocks == nil {
+			continue
+		}
+		n++
+		key := "nullable/" + ct.Obj().Name()
+		var hit ssa.Instruction
+		for fn := range core.StaticReach(dec, 2) {
+			if pkgOf(fn) == nil || pkgOf(fn).Path() != core.PkgProto {
+				continue
+			}
+			for _, b := range fn.Blocks {
+				for _, in := range b.Instrs {
+					lk, ok := in.(*ssa.Lookup)
+					if !ok || !lk.CommaOk {
+						continue
+					}
+					if _, isMap := lk.X.Type().Underlying().(*types.Map); !isMap {
+						continue
+					}
+					// the miss leads to a failure return
+					for _, r := range *lk.Referrers() {
+						ex, ok := r.(*ssa.Extract)
+						if !ok || ex.Index != 1 {
+							continue
+						}
+						miss := core.CondEdges(fn, false, func(cond ssa.Value) (bool, bool) { return true, cond == ssa.Value(ex) })
+						for _, e := range miss {
+							w := core.ReachAvoiding(core.Point{B: e.B.Succs[e.Succ], I: -1}, func(x ssa.Instruction) bool {
+								ret, ok := x.(*ssa.Return)
+								return ok && !defaultSuccess(fn, ret)
+							}, nil, nil)
+							if len(w) > 0 {
+								hit = lk
+							}
+						}
+					}
+				}
+			}
+		}
+		if hit != nil {
+			c.R.Bad(rule, key, cfg, p.Pos(hit.Pos()), ct.Obj().Name()+" offers Nullable() although its decoder rejects values that are missing from a table: the placeholder of a NULL row is such a value, so Nullable("+ct.Obj().Name()+") is inferred successfully and then fails to decode any block containing NULL")
+		} else {
+			c.R.Ok(rule, key, cfg, p.Pos(nm.Pos()), "decoder accepts every value of the element width")
+		}
+	}
+	c.R.Count("column types offering Nullable()", n)
+	c.R.Floor(rule, cfg, n, 20)
 }
